@@ -7,6 +7,7 @@ python3 tools/extract.py /repo lean || true
 (cd lean && lake build && lake build $(ls SkimModel/Props/*.lean | sed 's#/#.#g; s#\.lean$##'))
 [ -f harness/Cargo.lock ] || cp /repo/Cargo.lock harness/Cargo.lock
 (cd harness && cargo build --offline)
-# the real `sk` binary (release profile: a debug build of the binary dies in clap's own debug assertions);
-# checks that use it rebuild it incrementally from the working tree
-cargo build --release --offline --manifest-path /repo/Cargo.toml
+# the real `sk` binary for the CLI-level streams (dev profile WITHOUT debug assertions: a plain debug build dies in clap's own
+# debug assertions); checks that use it rebuild it incrementally from the working tree (vlib/core.py build_sk)
+CARGO_PROFILE_DEV_DEBUG_ASSERTIONS=false CARGO_PROFILE_DEV_OPT_LEVEL=1 CARGO_PROFILE_DEV_DEBUG=0 \
+  cargo build --offline --bin sk --manifest-path /repo/Cargo.toml --target-dir harness/target-sk
